@@ -15,6 +15,28 @@ theorem protocolPreimage_injective (sid sid' pid pid' ctx ctx' : Bytes)
     sid = sid' ∧ pid = pid' ∧ ctx = ctx' := by
   exact protocolPreimage_inj sid sid' pid pid' ctx ctx' hs hp hp' h
 
+/-- The preimage names the protocol ID through its length only up to the ID itself: it is
+`protocolPrefix sid |pid| ‖ pid ‖ ctx` (what the driver answers for 64 KiB … 256 MiB IDs). -/
+theorem protocolPreimage_prefix (sid pid ctx : Bytes) :
+    protocolPreimage sid pid ctx = protocolPrefix sid pid.length ++ pid ++ ctx :=
+  protocolPreimage_eq_prefix sid pid ctx
+
+/-- Shifting the (protocol ID | context) boundary inside one byte string `P ‖ C` by ANY amount
+`m > 0` — 1, 128, 2^14, 2^16, 2^16·m, 2^21, 2^28, … : no length encoding that wraps — changes
+the preimage. (`P.take k` / `P.drop k ++ C` and `P.take (k+m)` / `P.drop (k+m) ++ C` are the two
+boundary-ambiguous solicitations.) -/
+theorem boundary_shift_distinct (sid P C : Bytes) (k m : Nat) (hm : 0 < m) (hk : k + m ≤ P.length)
+    (hP : P.length < 2 ^ 64) :
+    protocolPreimage sid (P.take (k + m)) (P.drop (k + m) ++ C) ≠
+      protocolPreimage sid (P.take k) (P.drop k ++ C) := by
+  intro h
+  have h1 : (P.take (k + m)).length < 2 ^ 64 := by simp; omega
+  have h2 : (P.take k).length < 2 ^ 64 := by simp; omega
+  obtain ⟨_, hp, _⟩ := protocolPreimage_injective sid sid _ _ _ _ rfl h1 h2 h
+  have := congrArg List.length hp
+  simp at this
+  omega
+
 /-- `resolveMatch` hands a stream for `hash` to exactly the local directives whose constraints
 admitOk the link and whose (protocol, context) hash is `hash`. -/
 theorem resolve_iff (H : Bytes → Bytes) (sid : Bytes) (ds : List Dir) (l : LinkView) (hash : Bytes) (d : Dir) :
@@ -65,6 +87,12 @@ theorem matched_iff (H : Bytes → Bytes) (sid : Bytes) (dsA dsB : List Dir) (lA
 theorem admits_iff (d : Dir) (l : LinkView) :
     admits d l = true ↔ (d.peer = [] ∨ d.peer = l.remote) ∧ (d.transport = 0 ∨ d.transport = l.transport) := by
   simp [admits, List.isEmpty_iff]
+
+/-- Non-vacuity of `boundary_shift_distinct` at a wrap point of a fixed-width length: the prefixes
+of a 5-byte and a (65536+5)-byte protocol ID differ (a 16-bit length would give 0x0005 twice). -/
+example : protocolPrefix [9] 5 ≠ protocolPrefix [9] (65536 + 5) ∧
+    protocolPrefix [9] (65536 + 5) = [9, 0x85, 0x80, 0x04] := by
+  decide
 
 /-- Non-vacuity: the classic boundary-ambiguous pair now has different preimages. -/
 example : protocolPreimage [9] [97, 98] [99] ≠ protocolPreimage [9] [97] [98, 99] := by
